@@ -1,10 +1,10 @@
 """C08 -- distance is reflexive, symmetric and bounded by max_distance."""
 from .. import sym, tables
 from ..norm import n, P, C, V, match
-from . import cmpmodel, common
+from . import cmpmodel, common, simd
 
 ID = "C08"
-CONFIGS = {"quick": ["K0", "K2"], "thorough": ["K0", "K1", "K2", "K13"]}
+CONFIGS = {"quick": ["K0", "K2", "K13"], "thorough": ["K0", "K1", "K2", "K13", "K14a", "K14b", "K14c", "K17"]}
 META = {
     "explanation": (
         "Static analysis (MIR + constant evaluator).  For the Q-ratio and length parts the laws are decided on the "
@@ -12,8 +12,11 @@ META = {
         "attained.  The checksum part is a count of unequal positions (symmetric, zero iff equal, maximum = size).  "
         "max_distance is shown to mirror compare_with_config term by term (so Default = NoLength + length term and "
         "the bound is the sum of part maxima), and clear_checksum is shown to zero the whole checksum array and "
-        "nothing else.  Reflexivity/symmetry/maximum of the BODY kernel are not decided statically (sibling "
-        "agreement only, see C02)."
+        "nothing else.  For the BODY part the per-dibit arithmetic of the bit-sliced kernel (its symmetry, zero and "
+        "maximum) is not decided statically; what is decided (R-08.6) is that every compiled backend -- scalar 32/64-bit, "
+        "SSE2, SSE4.1, AVX2 -- has the same operation DAG for the kernel core with the two bodies in the same operand "
+        "roles, the backend-specific horizontal sums use lanes wide enough, and the loads cover each body exactly once; "
+        "so a law that holds for one backend holds for all of them."
     ),
     "trusted_base": ["rustc nightly front end and constant evaluator"],
     "assumptions": ["x86_64 target"],
@@ -43,6 +46,10 @@ def run(ctx, FS):
         r = "R-08.5"
         ctx.rule(r, "part compares forward (self, other) to their distance functions", "N")
         cmpmodel.part_compares(ctx, r, F)
+        r = "R-08.6"
+        ctx.rule(r, "every body-distance backend computes the same symmetric per-dibit kernel: sibling agreement of the SIMD operation DAGs with the "
+                    "scalar reference (operands of the two bodies are interchangeable in the DAG), loads cover each body exactly once", "N")
+        simd.body_kernels(ctx, r, F)
 
 
 def clear_checksum(ctx, r, F):
